@@ -70,7 +70,7 @@ def run(check):
     fname = os.path.join(tmp, 'm.py')
     requests, meta = [], []
     pairs = skipped = 0
-    kinds = {'normal_form': 0, 'random': 0}
+    kinds = {'normal_form': 0, 'random': 0, 'wide': 0}
     nontrivial = set()
     for label, src in corpus(check):
         layouts = []
@@ -84,6 +84,10 @@ def run(check):
             r = relayout.relayout(src, check.rng)
             if r is not None:
                 layouts.append(('random', r))
+        if kinds.get('wide', 0) + len([1 for k, _ in layouts if k == 'wide']) < (25 if quick else 300) and len(src) < 6000:
+            r = relayout.wide(src, check.rng)
+            if r is not None:
+                layouts.append(('wide', r))
         if not layouts:
             skipped += 1
             continue
